@@ -762,14 +762,19 @@ func (l *lexer) scanHeredocs() bool {
 		// unquote
 		var word ast.Word
 		var quoted bool
-		for _, w := range h.Word {
-			if q, ok := w.(*ast.Quote); ok {
-				word = append(word, q.Value...)
-				quoted = true
-			} else {
-				word = append(word, w)
+		var unquote func(ast.Word)
+		unquote = func(x ast.Word) {
+			for _, w := range x {
+				if q, ok := w.(*ast.Quote); ok {
+					// also the escapes inside double-quotes
+					unquote(q.Value)
+					quoted = true
+				} else {
+					word = append(word, w)
+				}
 			}
 		}
+		unquote(h.Word)
 		// token → string
 		delim := l.print(word)
 	Heredoc:
